@@ -101,6 +101,14 @@ func CheckMain(e *Engine, prop, tier string, seed int, verbose bool) int {
 			}
 			code = 2
 		}
+		if len(res.OutOfSub) > 0 {
+			// a function under a claimed contract left the verified subset: nothing can be said
+			// about it — neither "held" (exit 0 would be a lie) nor "violated"
+			for _, m := range res.OutOfSub {
+				fmt.Printf("UNDECIDED property=%s out-of-subset=%s\n", prop, m)
+			}
+			code = 2
+		}
 		if len(res.Vacuous) > 0 {
 			for _, m := range res.Vacuous {
 				fmt.Printf("UNDECIDED property=%s vacuous=%s\n", prop, m)
